@@ -32,6 +32,10 @@ func (sc *SchemaCache) Schema(src protoreflect.MessageDescriptor) (RootSchema, e
 		return built.To, nil
 	}
 
+	// A failed build must leave the cache as it was: schemas that were built
+	// and cached on the way may refer to the one that failed.
+	before := sc.cachedNames()
+
 	placeholder := &RefSchema{
 		Package: schemaPackage,
 		Schema:  nameInPackage,
@@ -50,13 +54,37 @@ func (sc *SchemaCache) Schema(src protoreflect.MessageDescriptor) (RootSchema, e
 		// Do not leave the half-built entry behind: its 'To' would hold a typed
 		// nil, which a later lookup would hand out as a schema without error.
 		placeholder.To = nil
-		delete(schemaPackage.Schemas, nameInPackage)
+		sc.dropNamesNotIn(before)
 		return nil, err
 	}
 	if placeholder.To.FullName() != placeholder.FullName() {
 		return nil, fmt.Errorf("schema %q has wrong name %q", placeholder.FullName(), placeholder.To.FullName())
 	}
 	return placeholder.To, nil
+}
+
+// cachedNames lists what the cache holds, by package.
+func (sc *SchemaCache) cachedNames() map[string]map[string]struct{} {
+	names := make(map[string]map[string]struct{}, len(sc.packages))
+	for pkgName, pkg := range sc.packages {
+		inPkg := make(map[string]struct{}, len(pkg.Schemas))
+		for name := range pkg.Schemas {
+			inPkg[name] = struct{}{}
+		}
+		names[pkgName] = inPkg
+	}
+	return names
+}
+
+// dropNamesNotIn removes every entry that is not listed in keep.
+func (sc *SchemaCache) dropNamesNotIn(keep map[string]map[string]struct{}) {
+	for pkgName, pkg := range sc.packages {
+		for name := range pkg.Schemas {
+			if _, ok := keep[pkgName][name]; !ok {
+				delete(pkg.Schemas, name)
+			}
+		}
+	}
 }
 
 func (sc *SchemaCache) refTo(pkg, schema string) (*RefSchema, bool) {
